@@ -375,3 +375,89 @@ Section Dist.
     intro extra. apply distribute_loop_stable. exact R1.
   Qed.
 End Dist.
+
+(* ------------------------------------------------------------------------------------------------ the call sites *)
+Lemma inc_inv_base_size : inc_inv (@base_size XQ).            Proof. intros t v. reflexivity. Qed.
+Lemma inc_inv_growth_limit : inc_inv (@growth_limit XQ).      Proof. intros t v. reflexivity. Qed.
+Lemma inc_inv_flex_factor : inc_inv (@flex_factor XQ _).      Proof. intros t v. reflexivity. Qed.
+Lemma inc_inv_fcl_growth_limit inner : inc_inv (@fit_content_limited_growth_limit XQ _ inner).
+Proof. intros t v. reflexivity. Qed.
+Lemma inc_inv_fit_content_limit inner : inc_inv (@fit_content_limit XQ _ inner).
+Proof. intros t v. reflexivity. Qed.
+Lemma inc_inv_limit_or_base : inc_inv (@limit_or_base XQ _).  Proof. intros t v. reflexivity. Qed.
+Lemma inc_inv_const {A} (c : A) : inc_inv (fun _ => c).       Proof. intros t v. reflexivity. Qed.
+Lemma inc_inv_filter1 ct : inc_inv (@base_filter1 XQ ct).   Proof. intros t v. destruct ct; reflexivity. Qed.
+Lemma inc_inv_filter2 ct aff ts : inc_inv (@base_filter2 XQ ct aff ts).
+Proof. intros t v. unfold base_filter2. destruct (length _); [reflexivity|apply inc_inv_filter1]. Qed.
+Lemma inc_inv_andb (f g : track XQ -> bool) : inc_inv f -> inc_inv g -> inc_inv (fun t => f t && g t).
+Proof. intros Hf Hg t v. rewrite (Hf t v), (Hg t v). reflexivity. Qed.
+Lemma inc_inv_is_flexible : inc_inv (@is_flexible XQ).        Proof. intros t v. reflexivity. Qed.
+
+Lemma base_inner_fuelled_0 {T} `{Num T} space tracks aff (p lim : track T -> T) ct :
+  base_inner_fuelled 0 0 space tracks aff p lim ct = distribute_item_space_to_base_size_inner space tracks aff p lim ct.
+Proof. reflexivity. Qed.
+Lemma growth_limit_fuelled_0 {T} `{Num T} inner space tracks (aff : track T -> bool) :
+  growth_limit_fuelled inner 0 space tracks aff = distribute_item_space_to_growth_limit inner space tracks aff.
+Proof. reflexivity. Qed.
+
+Lemma extra_space_fin (sp : Q) (l : list XQ) : Forall finite l -> exists c, x_max (Fin 0) (x_sub (Fin sp) (@fsum XQ _ l)) = Fin c.
+Proof.
+  intro Hf. destruct (fsum_fin l Hf) as [s [Es _]]. rewrite Es. cbn [x_sub x_neg x_add].
+  destruct (x_max_fin 0 (sp + - s)) as [c [Ec _]]. exists c. exact Ec.
+Qed.
+
+(* (b) distribute_item_space_to_base_size_inner: both calls of distribute_space_up_to_limits leave through their exit test, and the
+   function does not depend on the fuel *)
+Theorem base_inner_fuel_suffices (sp : Q) (tracks : list (track XQ)) (aff : track XQ -> bool) (p lim : track XQ -> XQ)
+        (ct : contribution_type) :
+  inc_inv aff -> inc_inv p -> inc_inv lim -> Forall (dist_ok p base_size lim) tracks ->
+  let extra := fmax zero (sub (Fin sp) (fsum (map base_size tracks))) in
+  let r1 := distribute_space_up_to_limits extra tracks aff p base_size lim in
+  let f2 := base_filter2 ct aff (snd r1) in
+  let r2 := distribute_space_up_to_limits (fst r1) (snd r1) f2 p base_size lim in
+  distribute_step aff p base_size lim (fst r1) (snd r1) = None /\
+  distribute_step f2 p base_size lim (fst r2) (snd r2) = None /\
+  forall e1 e2, base_inner_fuelled e1 e2 (Fin sp) tracks aff p lim ct
+                = distribute_item_space_to_base_size_inner (Fin sp) tracks aff p lim ct.
+Proof.
+  intros Haff Hp Hlim Hok. cbv zeta. xq0.
+  destruct (extra_space_fin sp (map base_size tracks)) as [c Ec].
+  { apply Forall_map. eapply Forall_impl; [|exact Hok]. intros t [Hb _]. exact Hb. }
+  rewrite Ec.
+  destruct (dist_fuel_suffices aff p base_size lim Haff Hp inc_inv_base_size Hlim c tracks Hok) as [R1 [R2 [R3 [R4 R5]]]].
+  cbv zeta in *.
+  set (r1 := distribute_space_up_to_limits (Fin c) tracks aff p base_size lim) in *.
+  destruct (fin_inv _ R4) as [c1 Ec1].
+  set (f2 := base_filter2 ct aff (snd r1)).
+  destruct (dist_fuel_suffices f2 p base_size lim (inc_inv_filter2 ct aff (snd r1)) Hp inc_inv_base_size Hlim c1 (snd r1) R3)
+    as [S1 [S2 _]].
+  cbv zeta in *. rewrite <- Ec1 in S1, S2.
+  split; [exact R1|]. split; [exact S1|].
+  intros e1 e2. unfold base_inner_fuelled, distribute_item_space_to_base_size_inner. xq0.
+  destruct (x_eqb (Fin sp) (Fin 0) || negb (existsb aff tracks)); [reflexivity|].
+  rewrite Ec. rewrite (Nat.add_comm e1), (R2 e1). fold r1.
+  destruct r1 as [extra1 ts1] eqn:Er1. cbn [fst snd] in *.
+  destruct (x_ltb base_threshold extra1); [|reflexivity].
+  f_equal. f_equal. rewrite (Nat.add_comm e2). exact (S2 e2).
+Qed.
+
+(* (c) distribute_item_space_to_growth_limit *)
+Theorem growth_limit_fuel_suffices (inner : option XQ) (sp : Q) (tracks : list (track XQ)) (aff : track XQ -> bool) :
+  inc_inv aff -> Forall (dist_ok (fun _ => one) limit_or_base (fit_content_limit inner)) tracks ->
+  let extra := fmax zero (sub (Fin sp) (fsum (map limit_or_base tracks))) in
+  let r := distribute_space_up_to_limits extra tracks aff (fun _ => one) limit_or_base (fit_content_limit inner) in
+  distribute_step aff (fun _ => one) limit_or_base (fit_content_limit inner) (fst r) (snd r) = None /\
+  forall e, growth_limit_fuelled inner e (Fin sp) tracks aff = distribute_item_space_to_growth_limit inner (Fin sp) tracks aff.
+Proof.
+  intros Haff Hok. cbv zeta. xq0.
+  destruct (extra_space_fin sp (map limit_or_base tracks)) as [c Ec].
+  { apply Forall_map. eapply Forall_impl; [|exact Hok]. intros t [Hb _]. exact Hb. }
+  rewrite Ec.
+  destruct (dist_fuel_suffices aff (fun _ => Fin 1) limit_or_base (fit_content_limit inner) Haff (inc_inv_const (Fin 1))
+              inc_inv_limit_or_base (inc_inv_fit_content_limit inner) c tracks Hok) as [R1 [R2 _]].
+  cbv zeta in *. split; [exact R1|].
+  intro e. unfold growth_limit_fuelled, distribute_item_space_to_growth_limit. xq0.
+  destruct (x_eqb (Fin sp) (Fin 0) || Nat.eqb (length (filter aff tracks)) 0); [reflexivity|].
+  rewrite Ec. destruct (length (filter _ tracks)); [|reflexivity].
+  rewrite (Nat.add_comm e), (R2 e). reflexivity.
+Qed.
